@@ -32,7 +32,7 @@ use crate::key_exchange::traits::{
 use crate::key_exchange::tripledh::NonceLen;
 use crate::keypair::{KeyPair, PrivateKey, PublicKey, SecretKey};
 use crate::ksf::Ksf;
-use crate::messages::{CredentialRequestLen, RegistrationUploadLen};
+use crate::messages::{deserialize_blinded_element, CredentialRequestLen, RegistrationUploadLen};
 use crate::serialization::Input;
 use crate::{
     CredentialFinalization, CredentialRequest, CredentialResponse, RegistrationRequest,
@@ -250,7 +250,7 @@ impl<CS: CipherSuite> ClientRegistration<CS> {
 
         Ok(Self {
             oprf_client: voprf::OprfClient::deserialize(&checked_slice[..client_len])?,
-            blinded_element: voprf::BlindedElement::deserialize(&checked_slice[client_len..])?,
+            blinded_element: deserialize_blinded_element::<CS>(&checked_slice[client_len..])?,
         })
     }
 
